@@ -73,6 +73,16 @@ class QueueStorage(object):
         for index in sorted(rcpt_indexes, reverse=True):
             del envelope.recipients[index]
 
+    def _merge_delivered_rcpts(self, current, rcpt_indexes):
+        # Each new batch of indexes refers to the recipients that were left
+        # after the earlier batches, so the batches are kept in the order in
+        # which they must be applied.
+        return list(current) + sorted(rcpt_indexes, reverse=True)
+
+    def _remove_merged_delivered_rcpts(self, envelope, delivered_indexes):
+        for index in delivered_indexes:
+            del envelope.recipients[index]
+
     def write(self, envelope, timestamp):
         """Writes the given envelope to storage, along with the timestamp of
         its next delivery attempt. The number of delivery attempts asociated
